@@ -32,7 +32,10 @@ def run(tier, seed):
     repo = Repo()
     n1cell = verify.verify(repo, n1_cell_contract(), ce.SCHEMA, [ce.transform_p2d(1)], {}, ce.SPEC_FUNCS,
                            inline={("Evolvent", "__GetYonX")}, config="N=1-cell", canary=False, defer=True)
-    ec.run_parallel(chk, ("node", "getyonx", "p2d", "getimage", "init"), ("R01",), ("n1_forward", "setbounds", "n1_setbounds"), more_reports=[n1cell])
+    ec.run_parallel(chk, ("node", "getyonx", "p2d", "getimage", "init"), ("R01",), ("n1_forward", "setbounds", "n1_setbounds",
+                                 # the property holds after ANY history of queries on the object: the inverse entry points must
+                                 # leave the configuration (bounds, density) and their arguments alone
+                                 "numbr", "getxony", "d2p", "inverse_api", "n1_inverse"), more_reports=[n1cell])
     chk.inlined.add("Evolvent.__GetYonX (N=1 path only: one assignment)")
     chk.assumptions += [ec.ASSUME_FLOAT, ec.ASSUME_NUMPY, ec.ASSUME_PRODUCT,
                         "surjectivity ('every cell is reached') is the pigeonhole consequence of the proved injectivity "
